@@ -1,8 +1,472 @@
 package sim
 
-import "math/rand/v2"
+import (
+	"context"
+	"errors"
+	"fmt"
+	"time"
 
-// BEScenario is the backend engine's part of a scenario (defined later).
-type BEScenario struct{}
+	"github.com/bool64/cache"
+	zs "github.com/bool64/cache/zzverifsim"
+)
 
-func genC18BE(r *rand.Rand, run int, tier string) *Scenario { return genC18(r, run-1, tier) }
+// BEConfig mirrors cache.Config for the backend engine.
+type BEConfig struct {
+	TTLNs                int64   `json:"ttl_ns,omitempty"` // 0 default (5m), -1 unlimited
+	Jitter               float64 `json:"jitter,omitempty"` // 0 default (0.1), -1 disabled
+	DeleteExpiredAfterNs int64   `json:"delete_expired_after_ns,omitempty"`
+	JanitorIntervalNs    int64   `json:"janitor_interval_ns,omitempty"` // 0: far future (janitor never runs)
+	CountSoftLimit       uint64  `json:"count_soft_limit,omitempty"`
+	EvictFraction        float64 `json:"evict_fraction,omitempty"`
+	Strategy             int     `json:"strategy,omitempty"` // 0 most expired, 1 LRU, 2 LFU
+	// EvictionNeeded is the script of the EvictionNeeded callback, one answer per call
+	// (nil: callback not configured; exhausted: false).
+	EvictionNeeded []bool `json:"eviction_needed,omitempty"`
+	Stats          bool   `json:"stats,omitempty"`
+	Logger         bool   `json:"logger,omitempty"`
+}
+
+// BEOp is one backend operation.
+type BEOp struct {
+	Kind     string `json:"kind"` // write read delete expireAll deleteAll len walk load store sleep
+	Key      int    `json:"key,omitempty"`
+	HasTTL   bool   `json:"has_ttl,omitempty"`
+	TTLNs    int64  `json:"ttl_ns,omitempty"`
+	SkipRead bool   `json:"skip_read,omitempty"`
+	SleepNs  int64  `json:"sleep_ns,omitempty"`
+	Mutate   bool   `json:"mutate,omitempty"` // overwrite the key buffer right after the call returned (C09)
+}
+
+// BEScenario is the backend engine's part of a scenario.
+type BEScenario struct {
+	Mode    string   `json:"mode"`    // seq | conc | ttl | janitor | evict
+	Backend string   `json:"backend"` // sharded | syncmap | shardedOf
+	Cfg     BEConfig `json:"cfg"`
+	Keys    [][]byte `json:"keys"`
+	// Groups[i] is the collision group of key i (keys with equal xxhash64); -1: none.
+	Groups  []int    `json:"groups,omitempty"`
+	Clients [][]BEOp `json:"clients,omitempty"`
+	// Phases for root-driven modes (janitor / evict / ttl).
+	Root []BEOp `json:"root,omitempty"`
+}
+
+type walkEnt struct {
+	key string
+	val interface{}
+	exp int64
+	seq uint64
+}
+
+type beRec struct {
+	client, idx int
+	op          *BEOp
+	kind        string
+	key         string
+	inv, ret    uint64
+	invT, retT  int64 // unix ns of the bubble clock
+	done        bool
+
+	tok     Tok // value written
+	val     interface{}
+	ok      bool
+	err     error
+	n       int
+	walkErr error
+	walk    []walkEnt
+	panicV  interface{}
+
+	// captured when the call returned (the error is a live view of the entry)
+	expVal interface{}
+	expAt  int64
+	expOK  bool
+}
+
+func (r *beRec) id() string { return fmt.Sprintf("c%d.%d", r.client, r.idx) }
+
+// beBackend abstracts over the three real backends.
+type beBackend struct {
+	read   func(ctx context.Context, k []byte) (interface{}, error)
+	write  func(ctx context.Context, k []byte, v Tok) error
+	del    func(ctx context.Context, k []byte) error
+	expAll func(ctx context.Context)
+	delAll func(ctx context.Context)
+	length func() int
+	walk   func(fn func(key []byte, v interface{}, exp time.Time) error) (int, error)
+	load   func(k []byte) (interface{}, bool)
+	store  func(k []byte, v Tok)
+	stop   func()
+	// expiredItem extracts value and expiry from an expiration error.
+	expiredItem func(err error) (interface{}, time.Time, bool)
+	wdr         cache.WalkDumpRestorer
+	raw         interface{}
+}
+
+func newBackend(kind string, cfg cache.Config) beBackend {
+	switch kind {
+	case "syncmap":
+		m := cache.NewSyncMap(cfg.Use)
+
+		return beBackend{
+			raw: m, wdr: m,
+			read:   func(ctx context.Context, k []byte) (interface{}, error) { return m.Read(ctx, k) },
+			write:  func(ctx context.Context, k []byte, v Tok) error { return m.Write(ctx, k, v) },
+			del:    m.Delete,
+			expAll: m.ExpireAll, delAll: m.DeleteAll, length: m.Len, stop: m.VerifStop,
+			walk: func(fn func(key []byte, v interface{}, exp time.Time) error) (int, error) {
+				return m.Walk(func(en cache.Entry) error { return fn(en.Key(), en.Value(), en.ExpireAt()) })
+			},
+			// SyncMap has no Load/Store of its own: Read/Write with a background context.
+			load: func(k []byte) (interface{}, bool) {
+				v, err := m.Read(context.Background(), k)
+
+				return v, err == nil
+			},
+			store:       func(k []byte, v Tok) { _ = m.Write(context.Background(), k, v) },
+			expiredItem: plainExpired,
+		}
+	case "shardedOf":
+		m := cache.NewShardedMapOf[Tok](cfg.Use)
+
+		return beBackend{
+			raw: m, wdr: m.WalkDumpRestorer(),
+			read:   func(ctx context.Context, k []byte) (interface{}, error) { return m.Read(ctx, k) },
+			write:  func(ctx context.Context, k []byte, v Tok) error { return m.Write(ctx, k, v) },
+			del:    m.Delete,
+			expAll: m.ExpireAll, delAll: m.DeleteAll, length: m.Len, stop: m.VerifStop,
+			walk: func(fn func(key []byte, v interface{}, exp time.Time) error) (int, error) {
+				return m.Walk(func(en cache.EntryOf[Tok]) error { return fn(en.Key(), en.Value(), en.ExpireAt()) })
+			},
+			load: func(k []byte) (interface{}, bool) {
+				v, ok := m.Load(k)
+
+				return v, ok
+			},
+			store: func(k []byte, v Tok) { m.Store(k, v) },
+			expiredItem: func(err error) (interface{}, time.Time, bool) {
+				var ee cache.ErrWithExpiredItemOf[Tok]
+				if errors.As(err, &ee) {
+					return ee.Value(), ee.ExpiredAt(), true
+				}
+
+				return nil, time.Time{}, false
+			},
+		}
+	default:
+		m := cache.NewShardedMap(cfg.Use)
+
+		return beBackend{
+			raw: m, wdr: m,
+			read:   func(ctx context.Context, k []byte) (interface{}, error) { return m.Read(ctx, k) },
+			write:  func(ctx context.Context, k []byte, v Tok) error { return m.Write(ctx, k, v) },
+			del:    m.Delete,
+			expAll: m.ExpireAll, delAll: m.DeleteAll, length: m.Len, stop: m.VerifStop,
+			walk: func(fn func(key []byte, v interface{}, exp time.Time) error) (int, error) {
+				return m.Walk(func(en cache.Entry) error { return fn(en.Key(), en.Value(), en.ExpireAt()) })
+			},
+			load:        func(k []byte) (interface{}, bool) { return m.Load(k) },
+			store:       func(k []byte, v Tok) { m.Store(k, v) },
+			expiredItem: plainExpired,
+		}
+	}
+}
+
+func plainExpired(err error) (interface{}, time.Time, bool) {
+	var ee cache.ErrWithExpiredItem
+	if errors.As(err, &ee) {
+		return ee.Value(), ee.ExpiredAt(), true
+	}
+
+	return nil, time.Time{}, false
+}
+
+// beRun is the state of one BE run.
+type beRun struct {
+	e  *env
+	sc *BEScenario
+	bk beBackend
+
+	recs  []*beRec
+	stats []statRec
+	logs  []logRec
+
+	janitor    *zs.Task
+	evictCalls int
+	needCalls  []int64 // unix ns of each EvictionNeeded call
+}
+
+func (r *beRun) cacheConfig() cache.Config {
+	c := r.sc.Cfg
+	cfg := cache.Config{
+		Name:                     "be",
+		TimeToLive:               dur(c.TTLNs),
+		ExpirationJitter:         c.Jitter,
+		DeleteExpiredAfter:       dur(c.DeleteExpiredAfterNs),
+		DeleteExpiredJobInterval: dur(c.JanitorIntervalNs),
+		ItemsCountReportInterval: farFuture,
+		CountSoftLimit:           c.CountSoftLimit,
+		EvictFraction:            c.EvictFraction,
+		EvictionStrategy:         cache.EvictionStrategy(c.Strategy),
+	}
+
+	if c.JanitorIntervalNs == 0 {
+		cfg.DeleteExpiredJobInterval = farFuture
+	}
+
+	if c.EvictionNeeded != nil {
+		cfg.EvictionNeeded = func() bool {
+			i := r.evictCalls
+			r.evictCalls++
+			r.needCalls = append(r.needCalls, time.Now().UnixNano())
+
+			if i < len(c.EvictionNeeded) {
+				return c.EvictionNeeded[i]
+			}
+
+			return false
+		}
+	}
+
+	if c.Stats {
+		cfg.Stats = simStats{recs: &r.stats, s: func() *zs.Sim { return r.e.s }}
+	}
+
+	if c.Logger {
+		cfg.Logger = beLogger{r: r}
+	}
+
+	return cfg
+}
+
+type beLogger struct{ r *beRun }
+
+func (l beLogger) rec(level, msg string) {
+	zs.Yield("log." + level)
+	l.r.logs = append(l.r.logs, logRec{seq: l.r.e.s.NextSeq(), level: level, msg: msg})
+}
+func (l beLogger) Error(_ context.Context, msg string, _ ...interface{})     { l.rec("error", msg) }
+func (l beLogger) Debug(_ context.Context, msg string, _ ...interface{})     { l.rec("debug", msg) }
+func (l beLogger) Warn(_ context.Context, msg string, _ ...interface{})      { l.rec("warn", msg) }
+func (l beLogger) Important(_ context.Context, msg string, _ ...interface{}) { l.rec("important", msg) }
+
+func (r *beRun) construct() {
+	before := len(r.e.s.Tasks())
+	r.bk = newBackend(r.sc.Backend, r.cacheConfig())
+
+	stopped := false
+	stop := r.bk.stop
+	r.bk.stop = func() {
+		if !stopped {
+			stopped = true
+			stop()
+		}
+	}
+	r.e.cleanup = append(r.e.cleanup, r.bk.stop)
+
+	// The janitor is the last daemon spawned by the constructor (the items-count reporter,
+	// if any, is started first).
+	ts := r.e.s.Tasks()
+	if len(ts) > before {
+		r.janitor = ts[len(ts)-1]
+	}
+}
+
+// exec runs one operation (from a client task or from the root) and records it.
+func (r *beRun) exec(ci, oi int, op *BEOp) *beRec {
+	e := r.e
+	rec := &beRec{client: ci, idx: oi, op: op, kind: op.Kind}
+
+	if op.Kind == "sleep" {
+		zs.Sleep(dur(op.SleepNs))
+
+		return nil
+	}
+
+	var kb []byte
+
+	if op.Key < len(r.sc.Keys) {
+		rec.key = string(r.sc.Keys[op.Key])
+		kb = []byte(rec.key)
+	}
+
+	ctx := context.Background()
+	if op.HasTTL {
+		ctx = cache.WithTTL(ctx, dur(op.TTLNs), false)
+	}
+
+	if op.SkipRead {
+		ctx = cache.WithSkipRead(ctx)
+	}
+
+	rec.tok = Tok{K: rec.key, ID: fmt.Sprintf("w%d.%d", ci, oi)}
+	r.recs = append(r.recs, rec)
+
+	rec.inv = e.s.NextSeq()
+	rec.invT = time.Now().UnixNano()
+	e.logf("invoke %s %s(%q)%s", rec.id(), op.Kind, rec.key, beFlags(op))
+
+	func() {
+		defer func() {
+			if p := recover(); p != nil {
+				if zs.IsKilled(p) {
+					panic(p)
+				}
+
+				rec.panicV = p
+				e.out.violate(e.sc.Prop+".PANIC", fmt.Sprintf("%s: %v", op.Kind, p), "%s(%q) panicked: %v", op.Kind, rec.key, p)
+			}
+		}()
+
+		switch op.Kind {
+		case "write":
+			rec.err = r.bk.write(ctx, kb, rec.tok)
+		case "read":
+			rec.val, rec.err = r.bk.read(ctx, kb)
+			if rec.err != nil {
+				var at time.Time
+
+				rec.expVal, at, rec.expOK = r.bk.expiredItem(rec.err)
+				rec.expAt = at.UnixNano()
+			}
+		case "delete":
+			rec.err = r.bk.del(ctx, kb)
+		case "expireAll":
+			r.bk.expAll(ctx)
+		case "deleteAll":
+			r.bk.delAll(ctx)
+		case "len":
+			rec.n = r.bk.length()
+		case "walk":
+			rec.n, rec.walkErr = r.bk.walk(func(key []byte, v interface{}, exp time.Time) error {
+				zs.Yield("walk.cb")
+				rec.walk = append(rec.walk, walkEnt{key: string(key), val: v, exp: exp.UnixNano(), seq: e.s.NextSeq()})
+
+				return nil
+			})
+		case "load":
+			rec.val, rec.ok = r.bk.load(kb)
+		case "store":
+			r.bk.store(kb, rec.tok)
+		}
+	}()
+
+	rec.ret = e.s.NextSeq()
+	rec.retT = time.Now().UnixNano()
+	rec.done = true
+
+	if op.Mutate {
+		for i := range kb {
+			kb[i] ^= 0x5a
+		}
+
+		e.out.fault("mutate_key_after_return")
+	}
+
+	switch op.Kind {
+	case "read", "load":
+		e.logf("return %s %s(%q) -> %v, %v, %v", rec.id(), op.Kind, rec.key, rec.val, rec.ok, rec.err)
+	case "len", "walk":
+		e.logf("return %s %s -> %d", rec.id(), op.Kind, rec.n)
+	default:
+		e.logf("return %s %s(%q) -> %v", rec.id(), op.Kind, rec.key, rec.err)
+	}
+
+	return rec
+}
+
+func beFlags(op *BEOp) string {
+	s := ""
+	if op.HasTTL {
+		s += fmt.Sprintf(" ttl=%v", dur(op.TTLNs))
+	}
+
+	if op.SkipRead {
+		s += " skipRead"
+	}
+
+	return s
+}
+
+func (r *beRun) spawnClients() {
+	for ci := range r.sc.Clients {
+		ci := ci
+
+		r.e.s.Spawn(fmt.Sprintf("c%d", ci), func() {
+			for oi := range r.sc.Clients[ci] {
+				zs.Yield("op")
+				r.exec(ci, oi, &r.sc.Clients[ci][oi])
+			}
+		})
+	}
+}
+
+func init() { engines["be"] = runBE }
+
+func runBE(e *env) {
+	r := &beRun{e: e, sc: e.sc.BE}
+
+	e.setup = true
+	r.construct()
+	e.setup = false
+
+	ok := true
+
+	switch r.sc.Mode {
+	case "seq", "conc":
+		r.spawnClients()
+		ok = e.runAll("")
+		e.checkPanics()
+	default:
+		if f := beModes[r.sc.Mode]; f != nil {
+			f(r)
+		} else {
+			e.out.Internal = "unknown BE mode " + r.sc.Mode
+		}
+	}
+
+	if ok && e.out.Internal == "" {
+		if f := beOracles[e.sc.Prop]; f != nil {
+			f(r)
+		}
+	}
+
+	r.bk.stop()
+
+	if v := e.s.Run(); v != zs.Quiescent && ok && e.out.Internal == "" && len(e.out.Violations) == 0 {
+		e.out.Internal = "janitor did not stop: " + e.s.StuckInfo
+	}
+
+	e.s.SettleRoot()
+}
+
+var (
+	beModes   = map[string]func(r *beRun){}
+	beOracles = map[string]func(r *beRun){}
+)
+
+// effTTL is the effective TTL of a write by the documentation: the context TTL if non-zero,
+// else the configured TimeToLive (default 5m); never=true for UnlimitedTTL without context TTL.
+func (r *beRun) effTTL(op *BEOp) (ttl time.Duration, never bool) {
+	if op.HasTTL && op.TTLNs != 0 && op.Kind == "write" {
+		return dur(op.TTLNs), false
+	}
+
+	switch r.sc.Cfg.TTLNs {
+	case 0:
+		return 5 * time.Minute, false
+	case -1:
+		return 0, true
+	}
+
+	return dur(r.sc.Cfg.TTLNs), false
+}
+
+func (r *beRun) jitterFrac() float64 {
+	switch {
+	case r.sc.Cfg.Jitter < 0:
+		return 0
+	case r.sc.Cfg.Jitter == 0:
+		return 0.1
+	}
+
+	return r.sc.Cfg.Jitter
+}
